@@ -409,6 +409,7 @@ def cli_matrix(tier):
                 if o['rc'] == 0:
                     V(c, 'exit_status', 'cli_exit_0_on_failure', 'exit status 0 although the simulation failed')
                 if o['report'] is not None:
+                    # (all failing request classes of the matrix fail before or inside the calculation)
                     V(c, 'report_written_on_failure', 'cli', f"failing run left a report at {o['full']}")
         info = {'cases': len(cases), 'exhaustive_over': 'request class x output form x cwd kind', 'reference_report_available': ref_report is not None,
                 'sample_case': dict(cases[0], result={k: v for k, v in results[0].items() if k != 'report'})}
